@@ -646,3 +646,27 @@ Definition step (fixed validate : bool) (s : st) (o : op) : st * res :=
 
 Fixpoint run (fixed validate : bool) (s : st) (ops : list op) : st :=
   match ops with [] => s | o :: r => run fixed validate (step fixed validate s o).1 r end.
+
+(* ------------------------------------------------------------------ decidable state predicates *)
+(* how the engine stores a metadata row: an index channel is indexed by itself *)
+Definition stored (c : chan) : echan :=
+  EChan (c_name c) (c_dt c) (c_isidx c) (if c_isidx c then chan_key c else chan_index c) (c_virt c).
+
+(* metadata of leased channels = union of the engines, row by row, each on its leaseholder *)
+Definition consistent_b (s : st) : bool :=
+  forallb (fun kc => is_free kc.2 ||
+                     bool_decide (eng_of s (c_lease kc.2) !! kc.1 = Some (stored kc.2))) (map_to_list (s_tab s)) &&
+  forallb (fun ne => forallb (fun ke =>
+      match s_tab s !! ke.1 with
+      | Some c => (c_lease c =? ne.1) && bool_decide (ke.2 = stored c)
+      | None => false end) (map_to_list ne.2)) (map_to_list (s_eng s)).
+
+Fixpoint nodup_names_b (l : list string) : bool :=
+  match l with [] => true | x :: r => negb (existsb (name_eqb x) r) && nodup_names_b r end.
+Definition names_ok_b (s : st) : bool :=
+  let names := (fun kc => c_name kc.2) <$> map_to_list (s_tab s) in
+  forallb valid_name names && nodup_names_b names.
+
+Definition key_in_use_b (s : st) (k : N) : bool :=
+  bool_decide (is_Some (s_tab s !! k)) ||
+  existsb (fun ne => bool_decide (is_Some (ne.2 !! k))) (map_to_list (s_eng s)).
